@@ -46,6 +46,7 @@ def run(ctx, col, tier):
     col.not_decided += ["equal arc-length spacing / 'length never grows' / linearity of radii as numeric statements",
                         "scipy.signal.convolve behaviour"]
 
+    col.guard(anchored, ctx, col)
     col.guard(shapes, ctx, col)
     col.guard(argdisc, ctx, col)
     col.guard(trim, ctx, col)
@@ -328,3 +329,101 @@ def arclen(ctx, col):
                       f"`{norm_src(r)[:70]}`" + (f" under `{norm_src(guards[0])[:70]}`" if guards else "") +
                       " is neither computed from nor guarded by the cumulative path length: the shortcut ignores how long "
                       "the polyline between the two ends is", stmt="ret:" + norm_src(r.value)[:50])
+
+
+def names_in_expr(e):
+    return {x.id for x in ast.walk(e) if isinstance(x, ast.Name)}
+
+
+def anchored(ctx, col):
+    """Statements that carry the clauses, matched three-way under one renaming per function."""
+    repo = ctx.repo
+    a = repo.get_def("swcgeom.transforms.branch_tree.BranchTreeAssembler.__call__")
+    col.text_group("R-ASSEMBLE", a.qualname, a, [
+        ("output starts with a copy of the root (any root type) ...", ["nodes = [x.soma(type_check=False).detach()]"], "init-nodes"),
+        ("... which gets new id 0", ["stack = [(x.soma(type_check=False), 0)]"], "init-stack"),
+        ("frames are (node of the branch tree, its new id)", ["n_orig, pid_new = stack.pop()"], "pop"),
+        ("each branch leaving a node is paired with one child of that node", ["for br, c in self.pair(x.branches.get(n_orig.id, []), children): pass"], "pairing") if False else
+        ("the children of the node in the branch tree", ["children = n_orig.children()"], "children"),
+        ("new id = position in the output list", ["n.id = len(nodes) + i"], "new-id"),
+        ("parent = predecessor in the output list", ["n.pid = len(nodes) + i - 1"], "new-pid"),
+        ("the first emitted node of a branch hangs on the start node's new id -- whichever node that is (a resampled point or, for a "
+         "branch without interior samples, the end node itself)", ["br_nodes[0].pid = pid_new"], "first-parent"),
+        ("nodes are emitted in order", ["nodes.extend(br_nodes)"], "emit"),
+        ("the subtree continues from the end node's new id", ["stack.append((c, br_nodes[-1].id))"], "continue"),
+    ], fixed=("x",))
+    col.text_group("R-TRIM", a.qualname, a, [
+        ("the first sample is dropped iff it coincides with the start node", ["s = 1 if np.linalg.norm(br[0].xyz() - n_orig.xyz()) < self.EPS else 0"], "start"),
+        ("the last sample is dropped iff it coincides with the end node", ["e = -1 if np.linalg.norm(br[-1].xyz() - c.xyz()) < self.EPS else None"], "end"),
+        ("trimmed samples are followed by the branch's end node", ["br_nodes = [n.detach() for n in br[s:e]] + [c.detach()]"], "body"),
+    ])
+    # the re-parenting of the first emitted node must be unconditional: guarded by "there are interior samples" it
+    # leaves a short branch's end node hanging on whatever was emitted last
+    for n in own_nodes(a):
+        if isinstance(n, ast.If) and any(isinstance(st, ast.Assign) and isinstance(st.targets[0], ast.Attribute) and st.targets[0].attr == "pid"
+                                         and norm_src(st.value) == "pid_new" for st in n.body) and "len(" in norm_src(n.test):
+            col.bad("R-ASSEMBLE", a.qualname, a.loc(n), "the first emitted node of a branch hangs on the start node's new id",
+                    f"`if {norm_src(n.test)}:` re-parents only when the branch has interior samples: the end node of a branch resampled to its two "
+                    f"ends keeps `pid = id - 1` and attaches to whatever node was emitted before it", stmt="first-parent", definite=True)
+    pr = repo.get_def("swcgeom.transforms.branch_tree.BranchTreeAssembler.pair")
+    col.text_group("R-ASSEMBLE", pr.qualname, pr, [
+        ("pairing is by distance between branch end and child position", ["v = np.reshape(xyz1, (-1, 1, 3)) - np.reshape(xyz2, (1, -1, 3))"], "dist"),
+        ("the closest remaining pair is taken", ["min_idx = np.argmin(dis)"], "argmin"),
+        ("each branch is used once", ["dis[min_branch_idx, :] = np.inf"], "used-branch"),
+        ("each end node is used once", ["dis[:, min_endpoint_idx] = np.inf"], "used-end"),
+    ])
+    # one-to-one: both the row and the column of a chosen pair must be closed
+    closes = [x for x in own_nodes(pr) if isinstance(x, ast.Assign) and isinstance(x.targets[0], ast.Subscript) and "inf" in norm_src(x.value)]
+    per_branch = any(isinstance(x, ast.Call) and (dotted(x.func) or "").endswith("argmin") and any(k.arg == "axis" for k in x.keywords) for x in own_nodes(pr)) \
+        or any(isinstance(lp, ast.For) and "dis" in names_in_expr(lp.iter) and any(isinstance(x, ast.Call) and (dotted(x.func) or "").endswith("argmin")
+                                                                                    for x in ast.walk(lp)) for lp in own_nodes(pr))
+    if per_branch and len(closes) < 2:
+        col.bad("R-ASSEMBLE", pr.qualname, pr.loc(), "pairing is one-to-one: each branch and each end node is used once",
+                "every branch independently takes its nearest end node (argmin along one axis, nothing closed): two branches whose ends coincide "
+                "take the same end node and the other subtree is lost or emitted twice", stmt="one-to-one", definite=True)
+    sm = repo.get_def("swcgeom.transforms.branch.BranchConvSmoother.__call__")
+    col.text_group("R-WRITESET", sm.qualname, sm, [
+        ("works on a detached copy", ["x = x.detach()"], "detach"),
+        ("only x, y, z are smoothed", ["for k in ['x', 'y', 'z']: pass"], "cols") if False else
+        ("only the interior 1:-1 is overwritten, by the same interior of the smoothed values", ["x.attach.ndata[k][1:-1] = (s / c)[1:-1]"], "interior"),
+    ])
+    for lp in [n for n in own_nodes(sm) if isinstance(n, ast.For)]:
+        if isinstance(lp.iter, (ast.List, ast.Tuple)) and all(isinstance(e, ast.Constant) for e in lp.iter.elts):
+            keys = [e.value for e in lp.iter.elts]
+            col.check(set(keys) == {"x", "y", "z"}, "R-WRITESET", sm.qualname, sm.loc(lp), "smoothed columns are exactly x, y, z", str(keys),
+                      f"the smoother runs over columns {keys}: radii / other attributes are changed (or a coordinate is not smoothed)",
+                      stmt="cols", definite=True)
+    ts = repo.get_def("swcgeom.transforms.tree.TreeSmoother.__call__")
+    col.text_group("R-WRITESET", ts.qualname, ts, [
+        ("works on a copy", ["x = x.copy()"], "copy"),
+        ("x of the branch's own nodes", ["x.ndata['x'][br.origin_id()] = smoothed.x()"], "x"),
+        ("y", ["x.ndata['y'][br.origin_id()] = smoothed.y()"], "y"),
+        ("z", ["x.ndata['z'][br.origin_id()] = smoothed.z()"], "z"),
+    ])
+    iso = repo.get_def("swcgeom.transforms.branch.BranchIsometricResampler.resample")
+    col.text_group("R-SPACING", iso.qualname, iso, [
+        ("segment vectors of the original polyline", ["diffs = np.diff(xyzr[:, :3], axis=0)"], "diffs"),
+        ("their Euclidean lengths", ["distances = np.sqrt((diffs ** 2).sum(axis=1))", "distances = np.linalg.norm(diffs, axis=1)"], "lens"),
+        ("arc length = cumulative length starting at 0", ["cumulative_distances = np.concatenate([[0], np.cumsum(distances)])"], "cum"),
+        ("total length", ["total_length = cumulative_distances[-1]"], "total"),
+        ("n = ceil(length / spacing) + 1 (so the step is at most the spacing)", ["n_nodes = int(np.ceil(total_length / self.distance)) + 1"], "count"),
+        ("positions: equal steps from 0 to the total length", ["new_distances = np.linspace(0, total_length, n_nodes)"], "linspace"),
+        ("radius interpolated at the same positions over the same abscissae", ["new_xyzr[:, 3] = np.interp(new_distances, cumulative_distances, xyzr[:, 3])"], "radius"),
+    ], fixed=("xyzr",))
+    lin = repo.get_def("swcgeom.transforms.branch.BranchLinearResampler.resample")
+    col.text_group("R-SPACING", lin.qualname, lin, [
+        ("arc length of the original polyline", ["xp = np.cumsum(np.linalg.norm(xyzr[1:, :3] - xyzr[:-1, :3], axis=1))"], "cum"),
+        ("starting at 0", ["xp = np.insert(xp, 0, 0)"], "zero"),
+        ("n positions from 0 to the total arc length (end points kept)", ["xvals = np.linspace(0, xp[-1], self.n_nodes)"], "positions"),
+        ("x", ["x = np.interp(xvals, xp, xyzr[:, 0])"], "x"), ("y", ["y = np.interp(xvals, xp, xyzr[:, 1])"], "y"),
+        ("z", ["z = np.interp(xvals, xp, xyzr[:, 2])"], "z"), ("r", ["r = np.interp(xvals, xp, xyzr[:, 3])"], "r"),
+    ], fixed=("xyzr",))
+    # hand-rolled interpolation: a division by the local segment length without a guard is 0/0 on a zero-length segment
+    for d in (iso, lin):
+        uses_interp = any(isinstance(c, ast.Call) and (dotted(c.func) or "").endswith("interp") for c in own_nodes(d))
+        divs = [b for b in own_nodes(d) if isinstance(b, ast.BinOp) and isinstance(b.op, ast.Div)
+                and any(isinstance(x, ast.Subscript) for x in ast.walk(b.right)) and not isinstance(b.right, ast.Attribute)]
+        if not uses_interp and divs:
+            col.bad("R-SPACING", d.qualname, d.loc(divs[0]), "interpolation is defined on zero-length segments too (np.interp)",
+                    f"`{norm_src(divs[0])[:80]}` divides by the length of the located segment: on a zero-length segment (a repeated node) this "
+                    f"is 0/0 and the sample -- e.g. the end point -- becomes NaN", stmt="interp", definite=True)
